@@ -16,7 +16,13 @@ RULE = ("history = fixed-shape schema (string/enum/int/float/nullable/datetime f
 GRAN = {"HOUR": 3600, "DAY": 86400}
 
 
+TZ = [None]     # configured zone of the running history (None = UTC)
+
+
 def bucket_of(ts, gran):
+    if TZ[0] is not None:
+        from .c16 import bucket_ref       # calendar reference over zoneinfo (week starts on Monday in these runs)
+        return bucket_ref(ts, gran, TZ[0], "Mon")
     if gran in GRAN:
         return ts - ts % GRAN[gran]
     d = datetime.datetime.fromtimestamp(ts, datetime.timezone.utc)
@@ -56,6 +62,9 @@ def make_history(rng):
             p["os"] = rng.choice(["p", "q"])
         events.append({"k": i, "ctx": rng.choice(ctxs), "payload": p})
     cfg = gen.gen_config(rng, zone=(1, 2, 3, 5), fill=(1, 2, 3, 50))
+    # configured zone: the bucket a PER query reports is the local one (no DST transition falls into the 40 days of event times)
+    cfg["timezone"] = rng.choice(["UTC", "UTC", "UTC", "Asia/Kolkata", "Asia/Kathmandu", "America/St_Johns", "Australia/Adelaide",
+                                  "US/Eastern", "Europe/Amsterdam"])
     return schema, events, cfg, ctxs
 
 
@@ -199,6 +208,9 @@ def history_task(task, wdir, res):
     import random
     rng = random.Random(task["seed"])
     schema, events, cfg, ctxs = make_history(rng)
+    import zoneinfo
+    TZ[0] = None if cfg["timezone"] == "UTC" else zoneinfo.ZoneInfo(cfg["timezone"])
+    res.add_set("timezones", cfg["timezone"])
     qs = [gen_query(rng, schema, ctxs, clean=(i % 2 == 0)) for i in range(task["nq"])]
     setup = [schema.define_cmd()]
     stores = [gen.store_cmd("ev", e["ctx"], e["payload"]) for e in events]
@@ -312,7 +324,8 @@ def run(run):
     run.min_distinct = 40
     run.assumptions = ["relational oracle: the fold is over the rows the engine itself returns for the same query without aggregation, "
                        "so selection defects (C02) do not leak in", "metrics over an empty input and the label of a null group key are unspecified",
-                       "PER buckets computed in UTC (the configured zone of these runs); other zones are C16's subject"]
+                       "PER buckets computed in the configured zone (UTC and six others, two thirds of them with a non-whole-hour offset) over zoneinfo; DST transitions, "
+                       "eras and week starts are C16's subject"]
     run.parallel(history_task, tasks)
 
 
